@@ -120,7 +120,6 @@ class Engine:
 
         if nb_of_processes == 1:
             # single process version
-            self.configuration.initialisation_seed()
             for iteration in range(extra_mc_paths):
                 simulated_path = simulation_path()
                 path_manager.set_to_path(simulated_path)
@@ -161,6 +160,10 @@ class Engine:
         :param product: product to price
         :param rmse: root-mean square error
         """
+        if self.configuration.nb_of_processes == 1:
+            # seed once per run and before the initialisation: the pre-computation already draws random variates
+            # and re-seeding at each level and pass would replay the same variates
+            self.configuration.initialisation_seed()
         self.initialisation(product)
 
         for path_manager in self.path_managers:
@@ -304,6 +307,9 @@ class Engine:
         """
         mc_paths = self.configuration.initial_mc_paths
         max_level = self.configuration.maximum_level
+        if self.configuration.nb_of_processes == 1:
+            # seed once per run and before the initialisation (see :func:`price`)
+            self.configuration.initialisation_seed()
         self.initialisation(product)
         for path_manager in self.path_managers:
             path_manager.update(
